@@ -49,12 +49,32 @@ func ruleC18(w *World, r *Report) {
 	ln, vn := w.FuncName(load), w.FuncName(val)
 
 	// ---------- R18.1
+	// the configuration of this call: the cell the decoder writes into (a composite literal or a helper that
+	// prepares the pre-decode defaults leaves further cells of the type, copied into this one)
 	var confCell *ssa.Alloc
 	allInstrs(load, func(i ssa.Instruction) {
-		if a, ok := i.(*ssa.Alloc); ok && rootTypeName(a.Type()) == "Conf" {
-			confCell = a
+		if c, ok := i.(*ssa.Call); ok && calleeName(c) == "encoding/json.Unmarshal" && len(c.Call.Args) == 2 {
+			tgt := c.Call.Args[1]
+			if mi, ok := tgt.(*ssa.MakeInterface); ok {
+				tgt = mi.X
+			}
+			if a, ok := tgt.(*ssa.Alloc); ok && rootTypeName(a.Type()) == "Conf" {
+				confCell = a
+			}
 		}
 	})
+	if confCell == nil {
+		n := 0
+		allInstrs(load, func(i ssa.Instruction) {
+			if a, ok := i.(*ssa.Alloc); ok && rootTypeName(a.Type()) == "Conf" {
+				confCell = a
+				n++
+			}
+		})
+		if n > 1 {
+			confCell = nil
+		}
+	}
 	if confCell == nil {
 		// where does the decoder write to?
 		target := ""
@@ -100,6 +120,10 @@ func ruleC18(w *World, r *Report) {
 		nRet++
 		if isNilConst(res(ret, 1)) {
 			u, ok := res(ret, 0).(*ssa.UnOp)
+			if raw, isLoad := ret.Results[0].(*ssa.UnOp); isLoad && raw.X == ssa.Value(confCell) {
+				// (res looks through a cell with a single whole store: the copy of an assembled literal)
+				u, ok = raw, true
+			}
 			r.check(ok && u.X == ssa.Value(confCell), "R18.1", ln, fmt.Sprintf("success return #%d returns the validated configuration", k+1), w.Pos(ret.Pos()), "*conf", "the success return hands back "+symOf(res(ret, 0)).String())
 			g := errGuarded(load, vcall, vcall, func(i ssa.Instruction) bool { return i == ssa.Instruction(ret) }) && instrDominates(vcall, ret)
 			r.check(g, "R18.1", ln, fmt.Sprintf("success return #%d only after validateConf returned nil", k+1), w.Pos(ret.Pos()), "dominated by validateConf()==nil", "a configuration can be returned without (successful) validation")
@@ -145,12 +169,74 @@ func ruleC18(w *World, r *Report) {
 		"MaxReqRetries":        {want: 5, doc: "5 retries"},
 		"HeartBeatInterval":    {want: int64(5 * time.Second), via: "String", extra: "EnableHBTimer", doc: "heartbeat interval 5s when heartbeats are enabled"},
 	}
+	// temporaries the configuration is assembled in before it is copied, whole, to where it lives (a composite
+	// literal, nested literals, a helper that returns the pre-decode defaults): temp → path prefix below conf
+	type alias struct {
+		prefix string
+		copyAt *ssa.Store
+	}
+	aliases := map[*ssa.Alloc]alias{}
+	copies := map[*ssa.Store]bool{}
+	pathBelowConf := func(addr ssa.Value) (string, bool) {
+		if p, ok := fieldPathBelow(addr, confCell); ok {
+			return p, true
+		}
+		for a, al := range aliases {
+			if p, ok := fieldPathBelow(addr, a); ok {
+				if al.prefix == "" || p == "" {
+					return al.prefix + p, true
+				}
+				return al.prefix + "." + p, true
+			}
+		}
+		return "", false
+	}
+	for changed := true; changed; {
+		changed = false
+		allInstrs(load, func(i ssa.Instruction) {
+			st, ok := i.(*ssa.Store)
+			if !ok || copies[st] {
+				return
+			}
+			u, isLoad := st.Val.(*ssa.UnOp)
+			if !isLoad || u.Op != token.MUL {
+				return
+			}
+			tmp, isAlloc := u.X.(*ssa.Alloc)
+			if !isAlloc || tmp == confCell {
+				return
+			}
+			if _, known := aliases[tmp]; known {
+				return
+			}
+			prefix, rooted := pathBelowConf(st.Addr)
+			if !rooted || !instrDominates(st, unm) {
+				return
+			}
+			// the temporary is written field by field and read once, by this copy
+			for _, ref := range *tmp.Referrers() {
+				switch ref := ref.(type) {
+				case *ssa.FieldAddr:
+				case *ssa.UnOp:
+					if ref != u {
+						return
+					}
+				case *ssa.DebugRef:
+				default:
+					return
+				}
+			}
+			aliases[tmp] = alias{prefix, st}
+			copies[st] = true
+			changed = true
+		})
+	}
 	allInstrs(load, func(i ssa.Instruction) {
 		st, ok := i.(*ssa.Store)
-		if !ok {
+		if !ok || copies[st] {
 			return
 		}
-		path, rooted := fieldPathBelow(st.Addr, confCell)
+		path, rooted := pathBelowConf(st.Addr)
 		if !rooted {
 			return
 		}
@@ -163,6 +249,12 @@ func ruleC18(w *World, r *Report) {
 			}
 			r.bad("R18.2", ln, "the configuration is only refined field by field", w.Pos(st.Pos()), "the whole configuration is overwritten after decoding")
 			return
+		}
+		for a, al := range aliases {
+			if _, below := fieldPathBelow(st.Addr, a); below && !instrDominates(st, al.copyAt) {
+				r.bad("R18.2", ln, path+" is written before the assembled value is copied", w.Pos(st.Pos()), "the store into the temporary comes after the copy and is lost")
+				return
+			}
 		}
 		d := table[path]
 		if d == nil {
@@ -681,20 +773,42 @@ func validatorFacts(w *World, r *Report, val *ssa.Function) map[confFact]bool {
 
 // isLiteralMap: a map made in this function and filled with constant keys only.
 func isLiteralMap(v ssa.Value) bool {
-	_, ok := v.(*ssa.MakeMap)
-	return ok
+	if _, ok := v.(*ssa.MakeMap); ok {
+		return true
+	}
+	// a package-level table (ruleC18Modes checks that only its initialiser writes it)
+	if u, ok := v.(*ssa.UnOp); ok && u.Op == token.MUL {
+		_, isG := u.X.(*ssa.Global)
+		return isG
+	}
+	return false
 }
 
 // ruleC18Modes: the literal mode set against the BESS port script.
 func ruleC18Modes(w *World, r *Report, val *ssa.Function) {
-	var goModes []string
-	allInstrs(val, func(i ssa.Instruction) {
-		if mu, ok := i.(*ssa.MapUpdate); ok {
-			if s, isStr := constString(mu.Key); isStr {
-				goModes = append(goModes, s)
+	goModes, g, init, nonLit := modeKeys(w, val)
+	for _, j := range nonLit {
+		r.bad("R18.3", w.FuncName(val), "the mode table "+g.Name()+" holds literal keys", w.Pos(j.Pos()), "a key of the table is not a string literal")
+	}
+	if g != nil {
+		for f := range w.allFuncs() {
+			if f == init {
+				continue
 			}
+			allInstrs(f, func(j ssa.Instruction) {
+				switch x := j.(type) {
+				case *ssa.Store:
+					if x.Addr == ssa.Value(g) {
+						r.bad("R18.3", w.FuncName(f), "the mode table "+g.Name()+" is fixed at start-up", w.Pos(x.Pos()), "the table is replaced at run time")
+					}
+				case *ssa.MapUpdate:
+					if u, ok := x.Map.(*ssa.UnOp); ok && u.X == ssa.Value(g) {
+						r.bad("R18.3", w.FuncName(f), "the mode table "+g.Name()+" is fixed at start-up", w.Pos(x.Pos()), "the table is written at run time")
+					}
+				}
+			})
 		}
-	})
+	}
 	sort.Strings(goModes)
 	r.floor("R18.3 literal modes", len(goModes), 3)
 	src, err := os.ReadFile(filepath.Join(w.Repo, "conf", "ports.py"))
@@ -712,6 +826,50 @@ func ruleC18Modes(w *World, r *Report, val *ssa.Function) {
 	for _, gm := range goModes {
 		r.check(py[gm], "R18.3", w.FuncName(val), "accepted mode '"+gm+"' is a mode the BESS port script supports", "conf/ports.py", "listed", "validateConf accepts mode '"+gm+"' which conf/ports.py rejects")
 	}
+}
+
+// modeKeys: the keys of the table validateConf looks conf.Mode up in — a map literal in the function or a
+// package-level table filled by the package initialiser (then table/init are set).
+func modeKeys(w *World, val *ssa.Function) (keys []string, table *ssa.Global, init *ssa.Function, nonLiteral []ssa.Instruction) {
+	allInstrs(val, func(i ssa.Instruction) {
+		if mu, ok := i.(*ssa.MapUpdate); ok {
+			if s, isStr := constString(mu.Key); isStr {
+				keys = append(keys, s)
+			}
+		}
+	})
+	allInstrs(val, func(i ssa.Instruction) {
+		lk, ok := i.(*ssa.Lookup)
+		if !ok || !strings.HasSuffix(symOf(lk.Index).String(), ".Mode") {
+			return
+		}
+		ld, ok := lk.X.(*ssa.UnOp)
+		if !ok {
+			return
+		}
+		g, ok := ld.X.(*ssa.Global)
+		if !ok {
+			return
+		}
+		table, init = g, g.Pkg.Func("init")
+		var mm ssa.Value
+		allInstrs(init, func(j ssa.Instruction) {
+			if st, ok := j.(*ssa.Store); ok && st.Addr == ssa.Value(g) {
+				mm = st.Val
+			}
+		})
+		allInstrs(init, func(j ssa.Instruction) {
+			if mu, ok := j.(*ssa.MapUpdate); ok && mm != nil && mu.Map == mm {
+				if s, isStr := constString(mu.Key); isStr {
+					keys = append(keys, s)
+				} else {
+					nonLiteral = append(nonLiteral, j)
+				}
+			}
+		})
+	})
+	sort.Strings(keys)
+	return
 }
 
 // ruleC18Consumers: every process-ending parse of a Conf field is covered by a validator fact.
@@ -1100,13 +1258,12 @@ func ruleC18Samples(w *World, r *Report, val *ssa.Function) {
 	samples := []string{"conf/upf.jsonc", "ptf/config/upf.jsonc"}
 	confT := w.NamedType(P, pfcpPkg, "Conf")
 	var goModes = map[string]bool{}
-	allInstrs(val, func(i ssa.Instruction) {
-		if mu, ok := i.(*ssa.MapUpdate); ok {
-			if s, isStr := constString(mu.Key); isStr {
-				goModes[s] = true
-			}
+	{
+		ks, _, _, _ := modeKeys(w, val)
+		for _, k := range ks {
+			goModes[k] = true
 		}
-	})
+	}
 	n := 0
 	for _, rel := range samples {
 		raw, err := os.ReadFile(filepath.Join(w.Repo, rel))
